@@ -281,6 +281,9 @@ func (x *concObj) doCache(o tt.Op) tt.Res {
 		vtime.Enable(false)
 		x.c = cache.New[string, string](ecDur(o.A[0]), time.Duration(o.A[1])*ecUnit)
 		return tt.Res{Ok: true}
+	case "tick":
+		vtime.Advance(time.Duration(o.A[0]) * ecUnit)
+		return tt.Res{Ok: true}
 	case "set":
 		return tt.Res{Ok: x.c.Set(ecKey(o.A[0]), ecVal(o.A[1]), ecDur(o.A[2])) == nil}
 	case "update":
@@ -422,25 +425,25 @@ func concTypes() []concType {
 		{name: "stack", f: "stack", big: fill("stack", "news", "push"),
 			inits: [][]tt.Op{{fop("stack", "news")}, {fop("stack", "news"), fop("stack", "push", 2)}, {fop("stack", "news"), fop("stack", "push", 1), fop("stack", "push", 2)}},
 			ops: func(th, i int) []tt.Op {
-				return []tt.Op{fop("stack", "push", 1), fop("stack", "push", 3), fop("stack", "pop"), fop("stack", "peek"), fop("stack", "size"), fop("stack", "search", 1)}
+				return []tt.Op{fop("stack", "push", 1), fop("stack", "push", 3), fop("stack", "pop"), fop("stack", "peek"), fop("stack", "size"), fop("stack", "search", 1), fop("stack", "search", 0)}
 			},
 			post: []tt.Op{fop("stack", "size"), fop("stack", "drain")}},
 		{name: "lstack", f: "stack",
 			inits: [][]tt.Op{{fop("stack", "newl", 1)}, {fop("stack", "newl", 1), fop("stack", "push", 2), fop("stack", "push", 3)}},
 			ops: func(th, i int) []tt.Op {
-				return []tt.Op{fop("stack", "push", 1), fop("stack", "push", 4), fop("stack", "pop"), fop("stack", "peek"), fop("stack", "size"), fop("stack", "search", 1)}
+				return []tt.Op{fop("stack", "push", 1), fop("stack", "push", 4), fop("stack", "pop"), fop("stack", "peek"), fop("stack", "size"), fop("stack", "search", 1), fop("stack", "search", 0)}
 			},
 			post: []tt.Op{fop("stack", "size"), fop("stack", "peek"), fop("stack", "search", 1), fop("stack", "search", 4)}},
 		{name: "queue", f: "queue", big: fill("queue", "newq", "enq"),
 			inits: [][]tt.Op{{fop("queue", "newq")}, {fop("queue", "newq"), fop("queue", "enq", 2)}, {fop("queue", "newq"), fop("queue", "enq", 1), fop("queue", "enq", 2)}},
 			ops: func(th, i int) []tt.Op {
-				return []tt.Op{fop("queue", "enq", 1), fop("queue", "enq", 3), fop("queue", "deq"), fop("queue", "peek"), fop("queue", "size"), fop("queue", "search", 1), fop("queue", "clear")}
+				return []tt.Op{fop("queue", "enq", 1), fop("queue", "enq", 3), fop("queue", "deq"), fop("queue", "peek"), fop("queue", "size"), fop("queue", "search", 1), fop("queue", "search", 0), fop("queue", "clear")}
 			},
 			post: []tt.Op{fop("queue", "size"), fop("queue", "drain")}},
 		{name: "lqueue", f: "queue",
 			inits: [][]tt.Op{{fop("queue", "newl", 1)}, {fop("queue", "newl", 1), fop("queue", "enq", 2)}, {fop("queue", "newl", 1), fop("queue", "deq")}},
 			ops: func(th, i int) []tt.Op {
-				return []tt.Op{fop("queue", "enq", 1), fop("queue", "enq", 3), fop("queue", "deq"), fop("queue", "peek"), fop("queue", "size"), fop("queue", "search", 1), fop("queue", "clear")}
+				return []tt.Op{fop("queue", "enq", 1), fop("queue", "enq", 3), fop("queue", "deq"), fop("queue", "peek"), fop("queue", "size"), fop("queue", "search", 1), fop("queue", "search", 0), fop("queue", "clear")}
 			},
 			post: []tt.Op{fop("queue", "size"), fop("queue", "drain")}},
 		{name: "heap", f: "heap", big: fill("heap", "new", "push"),
@@ -464,7 +467,9 @@ func concTypes() []concType {
 			},
 			post: []tt.Op{fop("trie", "size"), fop("trie", "get", trieKey("a")...), fop("trie", "get", trieKey("ab")...), fop("trie", "contains", trieKey("b")...)}},
 		{name: "cache", f: "cache",
-			inits: [][]tt.Op{{fop("cache", "new", -1, 0)}, {fop("cache", "new", -1, 0), fop("cache", "set", 0, 1, 0)}},
+			inits: [][]tt.Op{{fop("cache", "new", -1, 0)}, {fop("cache", "new", -1, 0), fop("cache", "set", 0, 1, 0)},
+				// an entry that has expired and has not been purged
+				{fop("cache", "new", 4, 0), fop("cache", "set", 0, 1, 0), fop("cache", "tick", 5)}},
 			ops: func(th, i int) []tt.Op {
 				v := th*10 + i
 				return []tt.Op{fop("cache", "set", 0, v, 0), fop("cache", "set", 1, v, 0), fop("cache", "get", 0), fop("cache", "update", 0, v, 0), fop("cache", "delete", 0), fop("cache", "count")}
